@@ -207,6 +207,7 @@ def run(tier, seed, build, res):
         return c03.glued(c, d, allt, set(d.accented))
     universe.run(g, res, 'parser', project, glue_oracle)
     after_construct_stream(rng, res, tier)
+    env_lines_stream(res)
     repl_layout_stream(res)
     theorem_stream(res)
 
@@ -276,6 +277,41 @@ def repl_layout_stream(res):
                     % (sepof[c.latex], t))
         return None
     universe.run(cases, res, 'repl-layout', project, oracle)
+
+
+def env_lines_stream(res):
+    """\\begin{env} / \\end{env} on lines of their own inside a paragraph leave
+    no blank line: every environment of the catalogue that takes no
+    mandatory argument, and the language environments of babel"""
+    macs, envs = universe.catalogue()
+    names = [(n, '') for n, (args, dcls) in envs if 'A' not in args and not dcls][:60]
+    names += [('otherlanguage', '{german}'), ('otherlanguage*', '{german}'),
+              ('otherlanguage', '{english}'), ('otherlanguage*', '{english}')]
+    cases = []
+    for n, arg in names:
+        if n in ('verbatim', 'verbatim*', 'lstlisting', 'tikzpicture', 'comment', 'document'):
+            continue
+        for ind in ('', '  '):
+            tex = ('Wone aa\n' + ind + '\\begin{' + n + '}' + arg + '\n' + ind + 'Wmid bb\n' + ind
+                   + '\\end{' + n + '}\nWtwo cc.\n')
+            cases.append((parsecase.T2T(tex, lang='en', pack='*', files={}), None, 'env-lines'))
+
+    def oracle(c, d, kind, im):
+        if im[0] != 'OK':
+            return None
+        t = im[1][1]
+        if 'Wone' not in t or 'Wtwo' not in t:
+            return None
+        k1, k2 = t.find('Wmid'), t.find('Wtwo')
+        if k1 < 0:
+            return None         # the environment is removed or rendered otherwise
+        if re.search(r'\n[ \t]*\n', t[k1:k2]) and not re.search(r'\n[ \t]*\n', t[:k1]):
+            # (environments that are paragraphs of their own have a break on
+            # both sides)
+            return ('no blank line behind the text of the environment in the source, the '
+                    'output has one: %r' % t)
+        return None
+    universe.run(cases, res, 'env-lines', project, oracle)
 
 
 def after_construct_stream(rng, res, tier):
